@@ -46,3 +46,18 @@ Definition write_run_old := write_run_gen false.
 
 (* the tables WriteRun returns *)
 Definition write_run_tables (es : list entry) (target : N) : list table := map write_table (write_run es target).
+
+(* ---------- reading the split run back as a sorted level (LevelList over {}, run) ----------
+   LevelList.ScanPrefixEntries selects the tables of a level >= 1 with slices.BinarySearchFunc / RangePrefixCompare and
+   a forward scan while RangeContainsPrefix, LevelList.Get selects one table with SearchUnique / RangeKeyCompare.
+   The selection itself is modelled and proved complete for chains of disjoint ranges elsewhere (Props/C06.v
+   level_search_complete, Proofs/C19_Search.v); tables that are not selected hold no entry with the prefix / key.
+   Here the level read is therefore the in-order composition of the per-table reads. *)
+Definition level_scan (ts : list table) (prefix : bytes) : option (list entry) :=
+  fold_right (fun t acc => match table_scan_prefix t prefix, acc with
+                           | Some x, Some y => Some (x ++ y) | _, _ => None end) (Some []) ts.
+Fixpoint level_get (ts : list table) (key : bytes) : get_res :=
+  match ts with
+  | [] => GNotFound
+  | t :: r => match table_get t key with GNotFound => level_get r key | res => res end
+  end.
